@@ -105,11 +105,15 @@ func (i *Interceptors) NewSegment(val string) (*Segment, error) {
 	if !seg.ignoreName {
 		name = "P<" + seg.Name + ">"
 	}
-	expr, err := regexp.Compile("(?" + name + seg.rule + ")" + seg.Suffix)
+	if _, err := regexp.Compile(seg.rule); err != nil { // rule 自身必须是一个完整的表达式
+		return nil, err
+	}
+	expr, err := regexp.Compile("^(?" + name + seg.rule + ")$")
 	if err != nil {
 		return nil, err
 	}
 	seg.expr = expr
+	seg.matcher = expr.MatchString // 与拦截器一样，要求整个参数值符合 rule
 	seg.calcAmbiguousLength()
 	return seg, nil
 }
@@ -189,9 +193,7 @@ func (seg *Segment) Valid(pattern string) bool {
 	case Interceptor:
 		return seg.matcher(pattern)
 	case Regexp:
-		pattern += seg.Suffix
-		locs := seg.expr.FindStringIndex(pattern)
-		return locs != nil && locs[1] == len(pattern)
+		return seg.matcher(pattern)
 	}
 	return true
 }
@@ -206,8 +208,8 @@ func (seg *Segment) Match(ctx *types.Context) bool {
 			ctx.Path = ctx.Path[len(seg.Value):]
 			return true
 		}
-	case Interceptor, Named:
-		if seg.Endpoint {
+	case Interceptor, Named, Regexp:
+		if seg.Endpoint || (seg.Type == Regexp && seg.Suffix == "") {
 			if seg.matcher(ctx.Path) {
 				if !seg.ignoreName {
 					ctx.Set(seg.Name, ctx.Path)
@@ -231,17 +233,6 @@ func (seg *Segment) Match(ctx *types.Context) bool {
 				}
 				index += i + len(seg.Suffix)
 			}
-		}
-	case Regexp:
-		if seg.ignoreName {
-			if loc := seg.expr.FindStringIndex(ctx.Path); loc != nil && loc[0] == 0 {
-				ctx.Path = ctx.Path[loc[1]:]
-				return true
-			}
-		} else if loc := seg.expr.FindStringSubmatchIndex(ctx.Path); loc != nil && loc[0] == 0 {
-			ctx.Set(seg.Name, ctx.Path[:loc[3]]) // 只有 ignoreName == false，才会有捕获的值
-			ctx.Path = ctx.Path[loc[1]:]
-			return true
 		}
 	}
 
